@@ -213,6 +213,95 @@ def mask_arr(m):
     return None if m is None else np.array(m, dtype=bool)
 
 
+FLAVOURS = ["list", "tuple", "set", "frozenset", "dictkeys", "gen", "iter", "filter", "map", "oneshot", "dup"]
+
+
+class OneShot:
+    """an iterator that can be consumed exactly once (a second pass yields nothing)"""
+
+    def __init__(self, items):
+        self._it = iter(list(items))
+
+    def __iter__(self):
+        return self
+
+    def __next__(self):
+        return next(self._it)
+
+
+def flavoured(names, flav):
+    """-> (the selection as an Iterable[str] of the given flavour, the names in the order it yields them)"""
+    if names is None:
+        return None, None
+    names = list(names)
+    if flav in (None, "list"):
+        return names, names
+    if flav == "tuple":
+        return tuple(names), names
+    if flav in ("set", "frozenset"):
+        obj = (set if flav == "set" else frozenset)(names)
+        return obj, list(obj)
+    if flav == "dictkeys":
+        return dict.fromkeys(names).keys(), list(dict.fromkeys(names))
+    if flav == "gen":
+        return (x for x in names), names
+    if flav == "iter":
+        return iter(names), names
+    if flav == "filter":
+        return filter(lambda x: True, names), names
+    if flav == "map":
+        return map(str, names), names
+    if flav == "oneshot":
+        return OneShot(names), names
+    if flav == "dup":
+        return names + names, names + names
+    raise ValueError(flav)
+
+
+def do_call(r, c):
+    """one read_*_props call on reader r -> (exception class or None, names in the order they were given)"""
+    arg, used = flavoured(c["names"], c.get("flav"))
+    try:
+        (r.read_node_props if c["k"] == "n" else r.read_edge_props)(arg)
+        return None, used
+    except Exception as ex:  # noqa: BLE001
+        return type(ex).__name__, used
+
+
+def graph_keys(backend, g):
+    """(union of node attribute names, union of edge attribute names) of a backend graph"""
+    if backend == "networkx":
+        return sorted({k for _, d in g.nodes(data=True) for k in d}), sorted({k for _, _, d in g.edges(data=True) for k in d})
+    return sorted({k for d in g.nodes() for k in d}), sorted({k for d in g.edges() for k in d})
+
+
+def impl_history(case, store, out):
+    """several builds on ONE reader, interleaved with read_*_props calls"""
+    from geff import GeffReader
+
+    r = GeffReader(store)
+    calls, hist, keep = [], [], []
+    for op in case["ops"]:
+        if op["k"] in ("n", "e"):
+            err, used = do_call(r, op)
+            calls.append({"k": op["k"], "names": used, "err": err})
+        else:
+            q = {"nm": op["nm"], "em": op["em"]}
+            try:
+                o = r.build(mask_arr(q["nm"]), mask_arr(q["em"]))
+                keep.append(o)
+                ans = {"ok": canon_inmem(o)}
+            except Exception as ex:  # noqa: BLE001
+                keep.append(None)
+                ans = {"err": type(ex).__name__, "mro": [c.__name__ for c in type(ex).__mro__], "msg": str(ex)[:160]}
+            hist.append({"q": q, "calls": [dict(c) for c in calls], "nsel": list(r.node_props), "esel": list(r.edge_props), "ans": ans})
+    # results of earlier builds must not be modified by later reads / builds
+    for h, o in zip(hist, keep):
+        h["stable"] = o is None or canon_inmem(o) == h["ans"]["ok"]
+    out["hist"] = hist
+    return out
+
+
 def impl_group(case):
     """one store + one call sequence + many (node mask, edge mask) queries on ONE reader"""
     from geff import GeffReader
@@ -228,29 +317,45 @@ def impl_group(case):
     except Exception as ex:  # noqa: BLE001
         out["init_err"] = type(ex).__name__
         return out
-    errs = []
-    for c in case["calls"]:
+    if "ops" in case:
         try:
-            (r.read_node_props if c["k"] == "n" else r.read_edge_props)(c["names"])
-            errs.append(None)
+            return impl_history(case, store, out)
         except Exception as ex:  # noqa: BLE001
-            errs.append(type(ex).__name__)
+            out["init_err"] = type(ex).__name__
+            return out
+    errs, used = [], []
+    for c in case["calls"]:
+        err, u = do_call(r, c)
+        errs.append(err)
+        used.append({"k": c["k"], "names": u})
     out["errs"] = errs
+    out["used"] = used
     out["nsel"], out["esel"] = list(r.node_props), list(r.edge_props)
     out["answers"] = [res(lambda q=q: canon_inmem(r.build(mask_arr(q["nm"]), mask_arr(q["em"])))) for q in case["queries"]]
     if case.get("rtm"):     # read_to_memory(node_props=…, edge_props=…) = the un-masked build of the same selection
         from geff.core_io._base_read import read_to_memory
 
-        out["rtm"] = res(lambda: canon_inmem(read_to_memory(store, True, case["rtm"][0], case["rtm"][1])))
+        fl = case.get("rtm_flav", [None, None])
+        out["rtm"] = res(lambda: canon_inmem(read_to_memory(store, True, flavoured(case["rtm"][0], fl[0])[0],
+                                                            flavoured(case["rtm"][1], fl[1])[0])))
+    if case.get("backends"):  # geff.read(store, node_props=…, edge_props=…, backend=…) with the same selection
+        import geff
+
+        fl = case.get("rtm_flav", [None, None])
+        out["backends"] = {}
+        for be in case["backends"]:
+            def rd(be=be):
+                g, md = geff.read(store, node_props=flavoured(case["rtm"][0], fl[0])[0],
+                                  edge_props=flavoured(case["rtm"][1], fl[1])[0], backend=be)
+                nk, ek = graph_keys(be, g)
+                return {"meta_n": sorted(md.node_props_metadata), "meta_e": sorted(md.edge_props_metadata), "node_keys": nk, "edge_keys": ek}
+            out["backends"][be] = res(rd)
     if case.get("fresh"):   # the same queries on a fresh reader each: build must not depend on earlier builds
         fr = []
         for q in case["queries"]:
             r2 = GeffReader(store)
             for c in case["calls"]:
-                try:
-                    (r2.read_node_props if c["k"] == "n" else r2.read_edge_props)(c["names"])
-                except Exception:  # noqa: BLE001
-                    pass
+                do_call(r2, c)
             fr.append(res(lambda q=q, r2=r2: canon_inmem(r2.build(mask_arr(q["nm"]), mask_arr(q["em"])))))
         out["fresh"] = fr
     return out
@@ -281,7 +386,7 @@ def py_restrict(full, nsel, esel, nm, em):
     def props(names, fullprops, mask):
         out = []
         byname = {p["name"]: p for p in fullprops}
-        for name in names:
+        for name in dict.fromkeys(names):
             p = byname[name]
             v = p["values"]
             if "dense" in v:
@@ -436,7 +541,7 @@ def call_orders(rng, nnames, enames):
             rng.shuffle(pick)
             if rng.random() < 0.2 and pick:
                 pick.append(pick[0])
-            calls.append({"k": k, "names": pick})
+            calls.append({"k": k, "names": pick, "flav": rng.choice(FLAVOURS) if rng.random() < 0.4 else None})
     return calls
 
 
@@ -566,6 +671,55 @@ def shared_name_groups(rng):
     return groups
 
 
+def flavour_groups(rng):
+    """the property selections in every Iterable[str] flavour, through read_*_props, read_to_memory and geff.read"""
+    groups = []
+    for v in range(2):
+        g = mk_graph(rng, 3, 3)
+        nn, en = [p["name"] for p in g["nprops"]], [p["name"] for p in g["eprops"]]
+        e = len(g["edges"])
+        for f in FLAVOURS:
+            a, b = rng.sample(nn, 2 + v), rng.sample(en, 1 + v)
+            groups.append({"graph": g, "fmt": 2 + v, "writer": "direct",
+                           "calls": [{"k": "n", "names": a, "flav": f}, {"k": "e", "names": b, "flav": f}],
+                           "queries": [{"nm": None, "em": None}, {"nm": [True, False, True], "em": None},
+                                       {"nm": None, "em": [rng.random() < 0.5 for _ in range(e)]}],
+                           "rtm": [a, b], "rtm_flav": [f, f], "backends": ["networkx", "rustworkx"], "stream": "flavour-" + f})
+    return groups
+
+
+def history_group(rng):
+    """several builds on ONE reader interleaved with read_node_props / read_edge_props (properties added between
+    builds, another mask per build, repeated identical builds)"""
+    n, e = rng.choice([1, 2, 3, 5]), rng.choice([0, 1, 3, 4])
+    g = mk_graph(rng, n, e)
+    e = len(g["edges"])
+    nn, en = [p["name"] for p in g["nprops"]], [p["name"] for p in g["eprops"]]
+
+    def read(k):
+        names = nn if k == "n" else en
+        r = rng.random()
+        if r < 0.15:
+            return {"k": k, "names": None}
+        return {"k": k, "names": [x for x in names if rng.random() < 0.5], "flav": rng.choice(FLAVOURS) if rng.random() < 0.3 else None}
+
+    def build(prev=None):
+        if prev is not None and rng.random() < 0.25:
+            return dict(prev)
+        return {"k": "b", "nm": rand_mask(rng, n), "em": rand_mask(rng, e)}
+    ops, last = [], None
+    for _ in range(rng.randint(0, 2)):
+        ops.append(read(rng.choice("ne")))
+    for _ in range(rng.randint(2, 4)):
+        last = build(last)
+        ops.append(last)
+        for _ in range(rng.choice([0, 1, 1, 2])):
+            ops.append(read(rng.choice("nee")))
+    last = build(last)
+    ops.append(last)
+    return {"graph": g, "fmt": rng.choice([2, 3]), "writer": "direct", "calls": [], "queries": [], "ops": ops, "stream": "history"}
+
+
 def malformed_group(rng):
     """outside the property's domain (correspondence only): unknown property names, masks of the
     wrong length, dangling stored edges"""
@@ -626,10 +780,42 @@ def fail_key(case, q, ans, full_ok):
     return "C09:exception"
 
 
+def judge_history(ck, case, im, mo, full, small, closed):
+    """every build of a history on ONE reader = restrict of the full read for the properties registered so far"""
+    raw = im["raw"]
+    for bi, h in enumerate(im["hist"]):
+        q, ans = h["q"], h["ans"]
+        one = {**small, "queries": [], "failing_build": bi}
+        dom = in_domain(case, raw, q) and (closed or q["nm"] is not None)
+        ck.case({"ops": case["ops"], "build": bi, "graph_ids": raw["ids"]}, case["stream"] + (":build%d" % min(bi, 3)) + ("" if dom else ":out-of-domain"),
+                bool(raw["ids"]))
+        if dom:
+            want = py_restrict(full, h["nsel"], h["esel"], q["nm"], q["em"])
+            if "err" in ans:
+                ck.fail(fail_key(case, q, ans, True), f"build #{bi} of a history raised {ans['err']} ({ans.get('msg', '')}) but the full read works",
+                        one, ans, "restriction of the full read")
+            else:
+                d = diff_class(case, ans["ok"], want)
+                if d:
+                    ck.fail("C09:history-" + d, f"build #{bi} on a re-used reader differs from the restriction of the full read in {d}", one,
+                            ans["ok"], want)
+            if not h["stable"]:
+                ck.fail("C09:history-result-modified", f"the result of build #{bi} was modified by later calls on the reader", one, None, None)
+        m = None if mo is None else mo.get(bi)
+        if m is not None:
+            a = m["answers"][0]
+            same = ("ok" in a and "ok" in ans and a["ok"] == ans["ok"]) or \
+                   ("err" in a and "err" in ans and (a["err"] == ans["err"] or a["err"] in ans.get("mro", [])))
+            if not same:
+                ck.corr_broken("C09:history-build", one, {k: v for k, v in ans.items() if k != "mro"}, a)
+
+
 def judge(ck, case, im, mo, lean_spec):
     """im = implementation observations, mo = model answer (or None), lean_spec = Lean `restrict` on
     the implementation's full read (or None)"""
-    small = {k: case.get(k) for k in ("graph", "fmt", "writer", "calls", "storepath")}
+    small = {k: case.get(k) for k in ("graph", "fmt", "writer", "calls", "storepath", "rtm", "rtm_flav", "backends", "ops")
+             if k in ("graph", "fmt", "writer", "calls") or case.get(k) is not None}
+    small.setdefault("calls", [])
     if "write_err" in im:
         ck.broken.append({"what": "corr C09:store-writer", "detail": {"case": small, "err": im["write_err"]}})
         return
@@ -643,7 +829,25 @@ def judge(ck, case, im, mo, lean_spec):
         return
     full = full["ok"]
     closed = edges_closed(raw)
+    if "hist" in im:
+        judge_history(ck, case, im, mo, full, small, closed)
+        return
     nsel, esel = im["nsel"], im["esel"]
+    for be, ob in (im.get("backends") or {}).items():
+        def present(names, fullprops, count):
+            by = {p["name"]: p for p in fullprops}
+            return sorted(nm for nm in set(names) if count and (by[nm]["missing"] is None or not all(by[nm]["missing"])))
+        want = {"meta_n": sorted(set(case["rtm"][0])), "meta_e": sorted(set(case["rtm"][1])),
+                "node_keys": present(case["rtm"][0], full["node_props"], len(full["node_ids"])),
+                "edge_keys": present(case["rtm"][1], full["edge_props"], len(full["edge_ids"]))}
+        ck.case({"backend": be, "rtm": case["rtm"], "flav": case.get("rtm_flav"), "graph_ids": raw["ids"]},
+                case["stream"] + ":geff.read-" + be, bool(raw["ids"]))
+        if "err" in ob:
+            ck.fail("C09:exception", f"geff.read(backend={be}) with a property selection raised {ob['err']} ({ob.get('msg', '')})",
+                    {**small, "queries": []}, ob, want)
+        elif ob["ok"] != want:
+            ck.fail("C09:backend-read-props", f"geff.read(backend={be}, node_props={case['rtm'][0]}, edge_props={case['rtm'][1]}) as "
+                    f"{case.get('rtm_flav')}: loaded properties / metadata differ from the selection", {**small, "queries": []}, ob["ok"], want)
     if "rtm" in im:
         want = py_restrict(full, case["rtm"][0], case["rtm"][1], None, None)
         ck.case({"rtm": case["rtm"], "graph_ids": raw["ids"], "fmt": case.get("fmt")}, case["stream"] + ":read_to_memory", bool(raw["ids"]))
@@ -711,8 +915,14 @@ def run_groups(ck, groups, drv):
     if drv is not None:
         reqs, where = [], []
         for gi, (c, im) in enumerate(zip(groups, ims)):
+            if "hist" in im:
+                for bi, h in enumerate(im["hist"]):
+                    reqs.append({"op": "build", "store": im["raw"], "calls": [{"k": x["k"], "names": x["names"]} for x in h["calls"]],
+                                 "queries": [h["q"]]})
+                    where.append((gi, ("h", bi)))
+                continue
             if "raw" in im:
-                reqs.append({"op": "build", "store": im["raw"], "calls": c["calls"], "queries": c["queries"]})
+                reqs.append({"op": "build", "store": im["raw"], "calls": im.get("used", c["calls"]), "queries": c.get("queries", [])})
                 where.append((gi, "m"))
                 if "ok" in im.get("full", {}) and "nsel" in im:
                     n, e = len(im["raw"]["ids"]), len(im["raw"]["edges"])
@@ -730,7 +940,10 @@ def run_groups(ck, groups, drv):
                 if "err" in a and len(a) == 1:
                     ck.corr_broken("C09:driver", {k: groups[gi][k] for k in ("graph", "calls")}, None, a)
                     continue
-                (model if kind == "m" else spec)[gi] = a if kind == "m" else a["spec"]
+                if isinstance(kind, tuple):
+                    model.setdefault(gi, {})[kind[1]] = a
+                else:
+                    (model if kind == "m" else spec)[gi] = a if kind == "m" else a["spec"]
     for gi, (c, im) in enumerate(zip(groups, ims)):
         try:
             judge(ck, c, im, None if model is None else model.get(gi), None if spec is None else spec.get(gi))
@@ -743,7 +956,7 @@ def run_groups(ck, groups, drv):
 
 
 def run(ck: common.Check):
-    ck.prove(["GeffProps.C09"])
+    ck.prove(["GeffProps.C09", "GeffProps.C09Links"])
     ck.rule = ("a case = (store, GeffReader call sequence, node mask, edge mask); cases = corpus + for N,E<=4 a "
                "4-property graph per size (fixed 1-D, 2-D, var-length in 4 data layouts, missing-bearing string) x all "
                "2^N+1 node masks x all 2^E+1 edge masks x property subsets + seeded random stores (N<=60, both zarr "
@@ -761,6 +974,9 @@ def run(ck: common.Check):
     for i in range(60 if ck.quick else 1200):
         groups.append(malformed_group(ck.rng))
     groups += shared_name_groups(ck.rng)
+    groups += flavour_groups(ck.rng)
+    for i in range(150 if ck.quick else 3000):
+        groups.append(history_group(ck.rng))
     for i in range(80 if ck.quick else 1500):
         groups.append(sparse_group(ck.rng))
     ck.extra["groups"] = len(groups)
@@ -780,24 +996,38 @@ def run(ck: common.Check):
     ]
 
 
+class _Rec:
+    """collects the verdicts of `judge` during a replay"""
+
+    def __init__(self):
+        self.f, self.broken, self.histogram = [], [], {}
+
+    def fail(self, key, what, case=None, observed=None, expected=None):
+        self.f.append((key, what, observed, expected))
+
+    def case(self, *a, **k):
+        pass
+
+    def corr_broken(self, *a, **k):
+        pass
+
+
 def replay(rp):
     case = dict(rp.get("case", rp))   # a replay file, or a bare corpus case
     case.setdefault("stream", "replay")
+    case.setdefault("calls", [])
+    case.setdefault("queries", [])
     im = impl_group(case)
-    if "write_err" in im or "init_err" in im or "err" in im.get("full", {"err": 1}):
-        print(json.dumps({k: v for k, v in im.items() if k != "raw"}, default=str)[:2000])
-        print("REPLAY: property FAILS on this input (full read / store)")
-        return 1
-    bad = 0
-    full = im["full"]["ok"]
-    for q, ans in zip(case["queries"], im["answers"]):
-        if not in_domain(case, im["raw"], q):
-            continue
-        want = py_restrict(full, im["nsel"], im["esel"], q["nm"], q["em"])
-        ok = "ok" in ans and diff_class(case, ans["ok"], want) is None
-        print(json.dumps({"query": q, "impl": ans.get("err") or "ok", "agrees_with_restriction": ok}))
-        if not ok:
-            print(json.dumps({"observed": ans if "err" in ans else as_dicts(ans["ok"]), "expected": as_dicts(want)}, default=str)[:3000])
-            bad += 1
-    print("REPLAY: property holds on this input" if not bad else "REPLAY: property FAILS on this input")
-    return 1 if bad else 0
+    r = _Rec()
+    judge(r, case, im, None, None)
+    print(json.dumps({"loaded": [im.get("nsel"), im.get("esel")], "call_errors": im.get("errs"),
+                      "builds": [("err: " + a["err"]) if "err" in a else "ok" for a in im.get("answers", [])] +
+                                [("err: " + h["ans"]["err"]) if "err" in h["ans"] else "ok" for h in im.get("hist", [])]}, default=str)[:1500])
+    for key, what, obs, exp in r.f:
+        print(f"  [{key}] {what}")
+        if obs is not None or exp is not None:
+            def show(x):
+                return as_dicts(x) if isinstance(x, dict) and "node_props" in x else x
+            print("    " + json.dumps({"observed": show(obs), "expected": show(exp)}, default=str)[:2500])
+    print("REPLAY: property holds on this input" if not r.f else "REPLAY: property FAILS on this input")
+    return 1 if r.f else 0
